@@ -609,15 +609,34 @@ def _predict(ctx, f):
                  ("param", p_val))
     ok_g = any(x[0] == "sub" and x[1] == ("param", p_df) and x[2] == want_mask
                for x in walk_term(rt))
-    aug = [n for n in ast.walk(giv.node) if isinstance(n, ast.AugAssign)]
-    ok_g = ok_g and len(aug) == 1 and ast.unparse(aug[0].target) == \
-        f"{p_orig}[{p_val}]" and "index" in ast.unparse(aug[0].value)
+    from ..events import container_events, root_name as _root
+    gev = [e for e in container_events(giv.node, gT, CFG(giv.node))
+           if _root(e.recv) == p_orig]
+    # the selected rows' own index is recorded under the fold value:
+    # orig_idx[val] += list(sel.index) / .extend(sel.index) / .append(...)
+    def _records_index(e):
+        if e.kind == "aug":
+            ok_slot = e.recv == ("param", p_orig) and \
+                e.key == ("param", p_val)
+            val = e.value
+        elif e.kind in ("extend", "append") and len(e.args) == 1:
+            ok_slot = e.recv == ("sub", ("param", p_orig),
+                                 ("param", p_val))
+            val = e.args[0]
+        else:
+            return False
+        return ok_slot and val is not None and any(
+            x[0] == "attr" and x[2] == "index" and any(
+                y[0] == "sub" and y[1] == ("param", p_df)
+                and y[2] == want_mask for y in walk_term(x[1]))
+            for x in walk_term(val))
+    ok_g = ok_g and len(gev) == 1 and _records_index(gev[0])
     ctx.check(ok_g, "C02b-rows-of-fold", giv,
               "get_index_values selects rows with column == value and "
               "records their original row numbers under that value",
               f"returns {show(rt, 100)}; records "
-              f"{[ast.unparse(a) for a in aug]}", node=giv.node)
-    from ..events import container_events
+              f"{[(e.kind, show(e.recv, 40), show(e.value or (e.args[0] if e.args else ('const', None)), 60)) for e in gev]}",
+              node=giv.node)
     pT = Terms(DefUse(prog, pf))
     pev = [e for e in container_events(pf.node, pT, CFG(pf.node))
            if e.kind == "append" and len(e.args) == 1]
